@@ -13,6 +13,7 @@ import Frrs.Props.C02
 import Frrs.Props.C04
 import Frrs.Props.C03
 import Frrs.Proofs.ShortHash
+import Frrs.Proofs.Pipes
 namespace Frrs.C08
 open Frrs
 set_option linter.unusedSimpArgs false
@@ -92,5 +93,18 @@ example : (runBytes { prune := { pruneEmpty := .never, pruneDegenerate := .never
 /-- the exporter and importer are run with the audited, lossless flag set; none of the flags the round trip depends on is
     conditional (extracted from pipes.rs on every run) -/
 theorem pipe_flags_audited : Extracted.pipeArgs = Pipe.auditedPipeArgs := by decide +kernel
+
+
+/-- **the importer never folds case**: `-c core.ignorecase=false` stands before `fast-import` for every option set; the
+    source, the target, their configuration and the platform play no part (model of pipes.rs, Frrs/Pipes.lean) -/
+theorem importer_never_folds_case (c : Pipes.Caps) (o : Cli.CliOpts) :
+    ∃ rest, Pipes.importCmd c o
+      = [b!"git", b!"-C", o.target, b!"-c", b!"core.ignorecase=false", b!"fast-import"] ++ rest :=
+  Pipes.importer_never_folds_case c o
+
+/-- with the default `quotepath` the exporter is told not to octal-quote UTF-8 path bytes -/
+theorem exporter_keeps_utf8_paths (c : Pipes.Caps) (o : Cli.CliOpts) (args : List Bytes)
+    (h : Pipes.exportCmd c o = some args) (hov : o.feOverride = none) (hq : o.quotepath = true) :
+    b!"core.quotepath=false" ∈ args := Pipes.default_export_is_lossless_setup c o args h hov hq
 
 end Frrs.C08
